@@ -419,9 +419,98 @@ def meta_worker(args):
     return res
 
 
+def conc_blocks(text):
+    blocks, cur = [], None
+    for l in text.splitlines():
+        if l.startswith("prog "):
+            if cur:
+                blocks.append(cur)
+            cur = [l]
+        elif cur is not None:
+            cur.append(l)
+    if cur:
+        blocks.append(cur)
+    return blocks
+
+
+def conc_judge_block(block, checks):
+    """Judges one recorded real-thread program: acceptor of model R, quiescent counters, refill."""
+    problems = []
+    if "accept" in checks:
+        rc, out, err = run(limited([DRIVER, "accept"]), inp="\n".join(block) + "\n", timeout=120)
+        if " ok " not in out and not out.strip().endswith("ok") and "ok ops=" not in out:
+            problems.append("history rejected by the acceptor of model R: " + out.strip()[:120])
+    for l in block:
+        if l.startswith("quiet ") and "quiet" in checks:
+            f = dict(x.split("=") for x in l.split()[1:])
+            if f["ec"] != f["resident"] or f["ws"] != f["weight"]:
+                problems.append("quiescent counters differ from residents: " + l)
+        if l.startswith("refill ") and "refill" in checks:
+            _, a, b = l.split()
+            if a != b:
+                problems.append("refill after quiescence not fully retained: " + l)
+    return problems
+
+
+def conc_worker(args):
+    (prop, kind, seed, ncases, length, profile, mode, oracle_id) = args
+    checks = profile.split("+")
+    res = {"kind": kind, "seed": seed, "profile": profile, "ncases": ncases, "ierr": None, "merr": None,
+           "disagree": [], "oracle_fail": [], "nontrivial": 0, "ops": 0, "hist": {}, "sample": None}
+    if kind == "iterw":
+        try:
+            rc, out, err = run(limited([HBIN, "iterw", str(seed), str(ncases)]), timeout=300)
+        except subprocess.TimeoutExpired:
+            res["oracle_fail"].append({"case": 0, "verdict": "hang", "ops": ["iterw hang"], "recorded": True})
+            return res
+        for l in out.splitlines():
+            if l.startswith("iterw "):
+                f = dict(x.split("=") for x in l.split()[1:])
+                res["ops"] += int(f["iterations"])
+                res["nontrivial"] += 1
+                if f["bad"] != "0":
+                    res["oracle_fail"].append({"case": int(f["round"]), "verdict": "iteration", "recorded": True,
+                                               "ops": [x for x in out.splitlines() if x.startswith("iterw-bad")][:3] + [l]})
+        res["sample"] = out.splitlines()[-2:]
+        return res
+    try:
+        rc, out, err = run(limited([HBIN, "conc", str(seed), str(ncases)]), timeout=300)
+    except subprocess.TimeoutExpired:
+        res["oracle_fail"].append({"case": 0, "verdict": "hang", "ops": [f"mmharness conc {seed} {ncases} did not finish"], "recorded": True})
+        return res
+    if rc != 0:
+        res["fatal"] = f"conc run crashed rc={rc} {err[-300:]}"
+        res["ops_text"] = out[-2000:]
+        return res
+    blocks = conc_blocks(out)
+    # one acceptor call for the whole output, then per-block detail only on rejection
+    rejected = set()
+    if "accept" in checks:
+        rc2, aout, aerr = run(limited([DRIVER, "accept"]), inp=out, timeout=300)
+        for l in aout.splitlines():
+            if "REJECT" in l:
+                rejected.add(l.split()[1])
+    for b in blocks:
+        res["ops"] += sum(1 for l in b if l.startswith("t"))
+        name = b[0].split()[1]
+        threads = {l.split()[0] for l in b if l.startswith("t")}
+        if len(threads) >= 2:
+            res["nontrivial"] += 1
+        probs = conc_judge_block(b, [c for c in checks if c != "accept"])
+        if name in rejected:
+            probs.append("history rejected by the acceptor of model R")
+        if probs:
+            res["oracle_fail"].append({"case": name, "verdict": "; ".join(probs)[:300], "ops": b, "recorded": True})
+        if res["sample"] is None and len(threads) >= 2:
+            res["sample"] = b[:14]
+    return res
+
+
 def worker(args):
     if args[1].startswith("meta-"):
         return meta_worker(args)
+    if args[1] in ("conc", "iterw"):
+        return conc_worker(args)
     (prop, kind, seed, ncases, length, profile, mode, oracle_id) = args
     ops = gen_ops(kind, seed, ncases, length, profile)
     impl, ierr = run_impl(ops)
@@ -644,6 +733,16 @@ def main():
         if len(violations) >= 2:
             break
         lines = f["ops"]
+        if f.get("recorded"):
+            sig = hashlib.sha1("\n".join(lines).encode()).hexdigest()[:10]
+            os.makedirs(REPLAYS, exist_ok=True)
+            path = os.path.join(REPLAYS, f"{prop}-{sig}.hist")
+            with open(path, "w") as fh:
+                fh.write("# recorded real-thread history (" + f.get("verdict", "") + ")\n")
+                fh.write("# source: " + f["src"] + "; re-judge with: lean/MiniMoka/.lake/build/bin/mmdriver accept < this file\n")
+                fh.write("\n".join(lines) + "\n")
+            violations.append((path, ""))
+            continue
         if f.get("verdict") == "hang":
             # each trial costs a watchdog period: shrink with a small budget
             small = shrink(lines, lambda ls: not judge_case(prop, ls, mode, oracle_id)[0], budget=25)
